@@ -351,6 +351,16 @@ def pinned_cases():
             out.append({"tree": t3, "cwd": [], "tags": ["pinned:links"],
                         "args": {"artifacts": arts, "exclude_patterns": ["nothing"], "base_path": None,
                                  "follow": fl, "normalize": fl, "lstrip": None}})
+    # root-anchored exclude patterns versus a deeper directory of the same name: `/build` prunes ./build only,
+    # never src/build (the exclude test is on the path relative to the working directory, not on the bare name,
+    # and not on the name joined to the start path)
+    t5 = d(("build", d(("out.o", f("o")))), ("src", d(("build", d(("gen.c", f("g")), ("deep", d(("more.py", f("m")))))),
+                                                         ("main.c", f("c")))), ("top.txt", f("t")))
+    for arts, ex in (([".",], ["/build"]), (["src", "build"], ["/build"]), ([".",], ["build"]), (["src"], ["/src/build"]),
+                     (["./src/..", "src/build"], ["/build", "/deep"]), ([".",], ["/src/build/deep", "/main.c"])):
+        out.append({"tree": t5, "cwd": [], "tags": ["pinned:anchored-exclude"],
+                    "args": {"artifacts": arts, "exclude_patterns": ex, "base_path": None,
+                             "follow": False, "normalize": False, "lstrip": None}})
     # ostree + file + dir merged
     h = "ab" + "c" * 62
     t4 = d(("refs", d(("heads", d(("main", f(h + "\n")))))), ("objects", d(("ab", d(("c" * 62 + ".commit", f("blob")))))),
